@@ -1783,6 +1783,16 @@ class ShortcutNode(ListNode):
             )
         self._end_pad = padding
 
+    def get_trailing_comment(self):
+        # what follows a shortcut in the text is its end padding; its nodes are the values it stands
+        # for (copies of the entry before it, with that entry's padding)
+        if self.end_padding:
+            return self.end_padding.get_trailing_comment()
+
+    def _delete_trailing_comment(self):
+        if self.end_padding:
+            self.end_padding._delete_trailing_comment()
+
     def __repr__(self):
         return f"(shortcut:{self._type}: {self.nodes})"
 
